@@ -27,6 +27,11 @@ DRIVERS = {
     "callback-removes-other": ["add_writer f2", "add_reader f1 removes_writer:f2", "ready f2", "ready f1", "settle",
                                "unready f2", "ready f1", "settle", "close"],
     "remove-then-close-same-fd": ["add_reader f1", "settle", "remove_reader f1", "closefd f1", "settle", "close"],
+    # through AddThreadSelectorEventLoop (the wrapper Tornado puts around a loop without add_reader): whatever the
+    # teardown order on the asyncio side, closing the wrapper stops and joins the selector thread
+    "wrapper:close": ["add_reader f1", "ready f1", "settle", "wclose"],
+    "wrapper:real-loop-closed-first": ["add_reader f1", "settle", "realclose", "wclose"],
+    "wrapper:close-twice": ["add_reader f1", "wclose", "wclose"],
 }
 
 
@@ -59,9 +64,10 @@ def run(ch, driver, waker_capacity=2, sched_factory=None, program=None):
         def __init__(self, buf, n, role):
             self.buf, self.n, self.role = buf, n, role
             self.closed = False
+            self.blocking = True        # like a real socket until setblocking(False)
 
         def setblocking(self, b):
-            pass
+            self.blocking = bool(b)
 
         def fileno(self):
             return self.n
@@ -71,14 +77,23 @@ def run(ch, driver, waker_capacity=2, sched_factory=None, program=None):
             if self.closed:
                 raise OSError(errno.EBADF, "closed")
             if len(self.buf) >= waker_capacity:
-                raise BlockingIOError(errno.EAGAIN, "full")
+                if not self.blocking:
+                    raise BlockingIOError(errno.EAGAIN, "full")
+                # a blocking socket: the sending thread sleeps until the peer has drained the buffer
+                sched.block_until(lambda: len(self.buf) < waker_capacity or self.closed, "waker.send(blocking)")
+                if self.closed:
+                    raise OSError(errno.EBADF, "closed")
             self.buf.append(data[:1])
             return 1
 
         def recv(self, n):
             sched.point("waker.recv")
             if not self.buf:
-                raise BlockingIOError(errno.EAGAIN, "empty")
+                if not self.blocking:
+                    raise BlockingIOError(errno.EAGAIN, "empty")
+                sched.block_until(lambda: bool(self.buf) or self.closed, "waker.recv(blocking)")
+                if not self.buf:
+                    return b""
             out = b"".join(self.buf)
             del self.buf[:]
             return out
@@ -148,6 +163,15 @@ def run(ch, driver, waker_capacity=2, sched_factory=None, program=None):
         def run_one(self):
             cb, args = self.queue.pop(0)
             cb(*args)
+
+        closed = False
+
+        def is_closed(self):
+            return self.closed
+
+        def close(self):
+            self.closed = True
+            del self.queue[:]       # a closed loop never runs what was still queued
     loop = FakeLoop()
     saved = (tpa.threading, tpa.select, tpa.socket)
     tpa.threading = ShimModule(_real_threading, Condition=lambda: ShimCondition(sched),
@@ -191,6 +215,9 @@ def run(ch, driver, waker_capacity=2, sched_factory=None, program=None):
             import types
             program(types.SimpleNamespace(tpa=tpa, loop=loop, fds=fds, sched=sched, box=box, make_cb=make_cb))
             st = box["st"]
+        elif driver.startswith("wrapper:"):
+            wrapper = tpa.AddThreadSelectorEventLoop(loop)
+            st = box["st"] = wrapper._selector
         else:
             st = box["st"] = tpa.SelectorThread(loop)
         for op in (DRIVERS[driver] if program is None else ()):
@@ -237,6 +264,14 @@ def run(ch, driver, waker_capacity=2, sched_factory=None, program=None):
                         # the loop thread sleeps until a callback is queued or the selector thread goes idle
                         sched.block_until(lambda: bool(loop.queue) or selector_idle(), "loop:wait")
                 check_quiescent("settle after %r" % (trace,))
+            elif name == "realclose":
+                loop.close()        # the asyncio side closes the wrapped loop itself (no shutdown_asyncgens)
+            elif name == "wclose":
+                wrapper.close()
+                if not loop.closed:
+                    problems.append(("wrapper-close-left-real-loop-open", "AddThreadSelectorEventLoop.close() did not close the wrapped loop"))
+                if not st._closed or (st._thread is not None and not st._thread.t.done):
+                    problems.append(("close-returned-with-thread-running", "selector thread still alive after the wrapper's close()"))
             elif name == "close":
                 st.close()
                 if st._thread is not None and not st._thread.t.done:
